@@ -119,10 +119,19 @@ class TseitinTransformation:
     def goal2intcnf(self, goal: z3.Goal) -> list[list[int]]:
         cnf = []
         for expr in goal:
-            if z3.is_or(expr):
-                cnf.append([self.expr_to_signed_id(x) for x in expr.children()])
-            else:
-                cnf.append([self.expr_to_signed_id(expr)])
+            literals = expr.children() if z3.is_or(expr) else [expr]
+            clause = []
+            satisfied = False
+            for lit in literals:
+                atom = lit.children()[0] if z3.is_not(lit) else lit
+                if z3.is_true(atom) or z3.is_false(atom):
+                    # constant literal: a true one satisfies the clause, a false one is dropped
+                    if z3.is_true(atom) != z3.is_not(lit):
+                        satisfied = True
+                    continue
+                clause.append(self.expr_to_signed_id(lit))
+            if not satisfied:
+                cnf.append(clause)
         return cnf
 
     """
